@@ -20,7 +20,7 @@ func init() {
 			"C05.txlife — path-sensitive typestate of bbolt transactions in both writers: after Commit no method is called on that transaction or on a bucket obtained from it until both are re-derived (the 1001st value of the in-memory writer); " +
 			"C05.flushorder — the big writer commits its pending temp transaction before it opens the read transaction on the temp database; " +
 			"C05.sorted — slices filled while ranging over the schema's maps (GetSchema: columns and values) are sorted ascending by their string key before use, or are slices.Sorted over the maps' keys, and are not reversed afterwards; " +
-			"C05.codec — writers and readers of the three record kinds (bitmap key, row counter, temp key) agree on byte order, width and offsets (= C01.codec); C05.schemaenc — both writers gob-encode their schema field under the schema key and the open function decodes that key into the same type; C05.rowcount — the row counter written is the writer's own counter field (one per AddRow call, also for rows without columns); C05.schemaadd — every path through schema.add finds or enters both the column and the value in the schema maps before it returns an index. " +
+			"C05.codec — writers and readers of the three record kinds (bitmap key, row counter, temp key) agree on byte order, width and offsets (= C01.codec); C05.schemaenc — both writers gob-encode their schema field under the schema key and the open function decodes that key into the same type; C05.rowcount — the row counter written is the writer's own counter field (one per AddRow call, also for rows without columns; 'own' = selected from the writer object, also when the field sits in a struct the writer holds by value, such as a header embedded in both writers and the Index — the same holds for the schema field of C05.schemaenc); C05.schemaadd — every path through schema.add finds or enters both the column and the value in the schema maps before it returns an index. " +
 			"NOT decided: observational identity of the two writers' outputs and exact schema/value sets (values); idempotence of reopening beyond the file not being written (C16).",
 		assumptions: []string{"bbolt: a transaction and its buckets are invalid after Commit", "roaring ToBytes serialises the whole bitmap", "encoding/gob round-trips the schema type", "loops unrolled up to 3 iterations cover the first/next/same-value cases of the merge loop"},
 	})
@@ -91,6 +91,10 @@ func siblingsRule(c *Ctx, rule, wname string, addRow *ssa.Function) {
 		allInstrs(fn, func(i ssa.Instruction) {
 			call, isCall := i.(*ssa.Call)
 			if !isCall || calleeFunc(&call.Call) != c.a.SchemaAdd {
+				return
+			}
+			if len(call.Call.Args) < 3 {
+				why = "schema.add is not called with the key and the value of a map entry (it takes other arguments)"
 				return
 			}
 			k, v := call.Call.Args[1], call.Call.Args[2]
@@ -470,8 +474,11 @@ func schemaEncRule(c *Ctx, rule string) {
 				}
 				all := true
 				for _, v := range vals {
-					f := path(v).lastField()
-					if f == nil || namedOf(f.Type()) != schemaT || c.w.ownerOf(f) != namedOf(anchor.Signature.Recv().Type()) {
+					// (the writer's own: a field of the writer, or of a struct the writer holds by value — `idx.schema` promoted from an
+					// embedded header is still the writer's storage; a schema field of any other object is not)
+					pt := path(v)
+					f := pt.lastField()
+					if f == nil || namedOf(f.Type()) != schemaT || pt.lastFieldHolder(c.w) != namedOf(anchor.Signature.Recv().Type()) {
 						all = false
 					}
 				}
@@ -610,7 +617,8 @@ func rowCountRule(c *Ctx, rule string) {
 		ok := false
 		why := "no 32-bit encoding of the writer's row counter is stored under the row-counter key"
 		// the writer's counter field: by shape (the integer field AddRow increments, rules_ag10.go), not by its name
-		ctr := c.a.rowsFieldOf(namedOf(anchor.Signature.Recv().Type()))
+		recvT := namedOf(anchor.Signature.Recv().Type())
+		ctr := c.a.rowsFieldOf(recvT)
 		if ctr == nil {
 			c.r.undecided(rule, name, "the writer's row counter field was not found"+c.a.SH.whyText(), c.w.pos(anchor.Pos()))
 			continue
@@ -659,8 +667,10 @@ func rowCountRule(c *Ctx, rule string) {
 				}
 				all := true
 				for _, val := range vals {
+					// (with the counter in a struct shared by the writers and the Index — an embedded header — the field alone does not
+					// say whose counter it is: it must be selected from an object of the writer's type)
 					f := srcField(val)
-					if f == nil || f != ctr {
+					if f == nil || f != ctr || srcHolder(val) != recvT {
 						all = false
 					}
 				}
